@@ -34,7 +34,7 @@ def quoteStrip (l : BLine) : BLine × Bool :=
   let q := qLoop l.bs r.2.2.1 r.2.1 text' 0
   let bs' : Int := (l.bs : Int) + sc + 1 + (if r.2.2.2 then 1 else 0)
   let e := decide (text'.length ≤ q.2)
-  ({ empty := e, sCount := q.1 - r.2.1, text := text', tShift := q.2, bs := bs'.toNat, hasLF := l.hasLF }, e)
+  ({ sCount := q.1 - r.2.1, text := text', tShift := q.2, bs := bs'.toNat, hasLF := l.hasLF }, e)
 
 def BState.setLine (s : BState) (i : Nat) (l : BLine) : BState := { s with lines := s.lines.set i l }
 
